@@ -64,6 +64,22 @@ pub fn main(args: &[String]) -> i32 {
                 api::Outcome::Ok(sql) => {
                     e["outcome"] = json!("sql");
                     e["sql"] = json!(sql);
+                    // the statement as the default options print it (format = true): the same tokens under the dialect's tokenizer
+                    match api::compile_formatted(src, Some(d)) {
+                        api::Outcome::Ok(fsql) => {
+                            let (a, b) = (crate::literal::tokens(d, &sql), crate::literal::tokens(d, &fsql));
+                            let unreadable = |x: &(Vec<String>, Vec<Vec<u32>>)| x.0.first().map_or(false, |t| t.starts_with("TOKENIZE-ERROR"));
+                            let same = (unreadable(&a) && unreadable(&b)) || a == b;
+                            e["fmt_same"] = json!(same);
+                            if !same {
+                                e["fmt_sql"] = json!(fsql);
+                            }
+                        }
+                        _ => {
+                            e["fmt_same"] = json!(false);
+                            e["fmt_sql"] = json!("(the formatted compilation did not return a statement)");
+                        }
+                    }
                     let dl = dialect_of(d);
                     let mut parsed = sqlparser::parser::Parser::parse_sql(&*dl, &sql);
                     if parsed.is_err() && d == "clickhouse" && sql.contains(" DIV ") {
